@@ -29,13 +29,28 @@ def model(s):
 
 
 # ------------------------------------------------------------------------------------------- building the application
-def _text(words, k=0):
-    """words -> the string handed to clikit; every k-th gap is a newline ("several lines long")"""
+def _sep(cfg):
+    """[every k-th gap, the separator used there, whether it also ends the text] - see cfg.nl / gw / tnl in HelpPage.tla;
+    `sep` (driver only) picks the characters: any of LF, CR, VT, FF for gw = 1, two of them for gw = 2"""
+    sep = cfg.get("sep") or ("\n" if cfg.get("gw", 1) == 1 else "\r\n")
+    if len(sep) != cfg.get("gw", 1):
+        raise T.MachineryError("separator %r does not have width gw = %r" % (sep, cfg.get("gw")))
+    return (cfg.get("nl", 0), sep, bool(cfg.get("tnl", False)))
+
+
+NOSEP = (0, "\n", False)
+
+
+def _text(words, K=NOSEP):
+    """words -> the string handed to clikit"""
+    k, sep, trail = K
     out = ""
     for n, w in enumerate(words):
         if n:
-            out += "\n" if k and n % k == 0 else " "
+            out += sep if k and n % k == 0 else " "
         out += real(w)
+    if out and trail:
+        out += sep
     return out
 
 
@@ -48,30 +63,47 @@ def _default(words):
     return v
 
 
-def _add_args_opts(c, node, nl):
-    from clikit.api.args.format import Argument, Option
+def _add_opt(c, o, K, kw):
+    from clikit.api.args.format import Option
 
-    for o in node.get("opts", []) if "opts" in node else []:
-        flags = {"no": Option.NO_VALUE, "req": Option.REQUIRED_VALUE, "opt": Option.OPTIONAL_VALUE}[o["val"]]
-        if o["multi"]:
-            flags |= Option.MULTI_VALUED
-        if o["short"] and not o["ps"]:
-            flags |= Option.PREFER_LONG_NAME
-        c.add_option(o["long"], o["short"] or None, flags, _text(o["desc"], nl) if o["hasDesc"] else None, _default(o["dflt"]))
-    for a in node.get("args", []):
-        flags = Argument.REQUIRED if a["req"] else Argument.OPTIONAL
-        if a["multi"]:
-            flags |= Argument.MULTI_VALUED
-        c.add_argument(a["name"], flags, _text(a["desc"], nl) if a["hasDesc"] else None, _default(a["dflt"]))
+    flags = {"no": Option.NO_VALUE, "req": Option.REQUIRED_VALUE, "opt": Option.OPTIONAL_VALUE}[o["val"]]
+    if o["multi"]:
+        flags |= Option.MULTI_VALUED
+    if o["short"] and not o["ps"]:
+        flags |= Option.PREFER_LONG_NAME
+    desc = _text(o["desc"], K) if o["hasDesc"] else None
+    if kw:  # the same call with keyword arguments
+        c.add_option(long_name=o["long"], short_name=o["short"] or None, flags=flags, description=desc, default=_default(o["dflt"]),
+                     value_name=o.get("vn", "..."))
+    else:
+        c.add_option(o["long"], o["short"] or None, flags, desc, _default(o["dflt"]), o.get("vn", "..."))
 
 
-def _fill_command(c, node, nl):
+def _add_arg(c, a, K, kw):
+    from clikit.api.args.format import Argument
+
+    flags = Argument.REQUIRED if a["req"] else Argument.OPTIONAL
+    if a["multi"]:
+        flags |= Argument.MULTI_VALUED
+    desc = _text(a["desc"], K) if a["hasDesc"] else None
+    if kw:
+        c.add_argument(name=a["name"], flags=flags, description=desc, default=_default(a["dflt"]))
+    else:
+        c.add_argument(a["name"], flags, desc, _default(a["dflt"]))
+
+
+def _fill_command(c, node, K, kw, later):
+    """later: list collecting (config object, "opt"|"arg", element) that a staged build adds after a first application
+    has been built from the configuration (None: add everything at once)"""
     if node["desc"]:
-        c.set_description(_text(node["desc"], nl))
+        c.set_description(_text(node["desc"], K))
     if node["help"]:
         c.set_help("\n".join(_text(par) for par in node["help"]))
-    for al in node["aliases"]:
-        c.add_alias(al)
+    if kw:
+        c.add_aliases(list(node["aliases"]))
+    else:
+        for al in node["aliases"]:
+            c.add_alias(al)
     if node["hidden"]:
         c.hide()
     if not node["enabled"]:
@@ -80,15 +112,30 @@ def _fill_command(c, node, nl):
         c.anonymous()
     elif node["dflt"]:
         c.default()
-    _add_args_opts(c, node, nl)
+    opts, args = list(node["opts"]), list(node["args"])
+    if later is not None and opts:
+        later.append((c, "opt", opts.pop()))
+    if later is not None and args:
+        later.append((c, "arg", args.pop()))
+    for o in opts:
+        _add_opt(c, o, K, kw)
+    for a in args:
+        _add_arg(c, a, K, kw)
 
 
 FULL_OPTS = None  # the global options of DefaultApplicationConfig in configuration form (read once, see full_gopts)
 
 
 def make_app(cfg):
-    """cfg -> ConsoleApplication on the default configuration (slim: only -h/--help and the help command)"""
+    """cfg -> ConsoleApplication on the default configuration (slim: only -h/--help and the help command).
+    cfg["route"] (driver only) selects equivalent ways of saying the same thing:
+      bit 0  keyword instead of positional arguments for add_argument / add_option, add_aliases instead of add_alias
+      bits 1-2 (mod 3)  sub-commands through the context manager / create_sub_command / CommandConfig + add_sub_command_config
+      bit 3  application name and version through the setters instead of the constructor
+      bit 4  staged: an application is built (and dropped) before the last option / argument of every command and the last
+             command are added to the *same* configuration objects; the application under test is built afterwards"""
     from clikit import ConsoleApplication
+    from clikit.api.config.command_config import CommandConfig
     from clikit.api.event import PRE_HANDLE, PRE_RESOLVE
     from clikit.config import DefaultApplicationConfig
     from clikit.handler.help import HelpTextHandler
@@ -100,9 +147,17 @@ def make_app(cfg):
             self.add_event_listener(PRE_RESOLVE, self.resolve_help_command)
             self.add_event_listener(PRE_HANDLE, self.print_version)
 
-    nl = cfg.get("nl", 0)
+    route = cfg.get("route", 0)
+    kw, subway, setters, staged = bool(route & 1), (route >> 1) % 3, bool(route & 8), bool(route & 16)
+    K = _sep(cfg)
     full = cfg.get("base") == "full"
-    conf = (DefaultApplicationConfig if full else Slim)(cfg["app"], cfg["ver"] or None)
+    cls = DefaultApplicationConfig if full else Slim
+    if setters:
+        conf = cls()
+        conf.set_name(cfg["app"])
+        conf.set_version(cfg["ver"] or None)
+    else:
+        conf = cls(cfg["app"], cfg["ver"] or None)
     conf.set_display_name(_text(cfg["display"]))
     conf.set_catch_exceptions(False)
     conf.set_terminate_after_run(False)
@@ -114,19 +169,43 @@ def make_app(cfg):
         if [o["long"] for o in gopts[: len(have)]] != have:
             raise T.MachineryError("full configuration: global options %r expected first" % (have,))
         gopts = gopts[len(have):]
-    _add_args_opts(conf, {"opts": gopts}, nl)
-    for node in cfg["cmds"]:
+    for o in gopts:
+        _add_opt(conf, o, K, kw)
+    for a in cfg.get("gargs", []):
+        _add_arg(conf, a, K, kw)
+    later = [] if staged else None
+    nodes = list(cfg["cmds"])
+    held = nodes.pop() if staged and len(nodes) > 1 and not nodes[-1]["builtin"] else None
+
+    def add_command(node):
         if node["builtin"]:
             if not full:
                 with conf.command(node["name"]) as c:
-                    _fill_command(c, node, 0)
+                    _fill_command(c, node, K, kw, None)
                     c.set_handler(HelpTextHandler(HelpResolver()))
-            continue
+            return
         with conf.command(node["name"]) as c:
-            _fill_command(c, node, nl)
+            _fill_command(c, node, K, kw, later)
             for sub in node["subs"]:
-                with c.sub_command(sub["name"]) as s:
-                    _fill_command(s, sub, nl)
+                if subway == 0:
+                    with c.sub_command(sub["name"]) as s:
+                        _fill_command(s, sub, K, kw, later)
+                elif subway == 1:
+                    _fill_command(c.create_sub_command(sub["name"]), sub, K, kw, later)
+                else:
+                    s = CommandConfig(sub["name"])
+                    _fill_command(s, sub, K, kw, later)
+                    c.add_sub_command_config(s)
+
+    for node in nodes:
+        add_command(node)
+    if staged:
+        ConsoleApplication(conf)  # a first application from the unfinished configuration; nothing of it is used
+        for c, what, el in later:
+            (_add_opt if what == "opt" else _add_arg)(c, el, K, kw)
+        later = None
+        if held is not None:
+            add_command(held)
     return ConsoleApplication(conf)
 
 
@@ -147,7 +226,7 @@ def full_gopts():
             opts.append({"long": o.long_name, "short": o.short_name or "", "ps": bool(o.short_name) and o.is_short_name_preferred(),
                          "val": "no" if not o.accepts_value() else ("req" if o.is_value_required() else "opt"),
                          "multi": o.is_multi_valued(), "hasDesc": o.description is not None,
-                         "desc": words_of(o.description or ""), "dflt": []})
+                         "desc": words_of(o.description or ""), "dflt": [], "vn": o.value_name})
         hc = conf.get_command_config("help")
         arg = list(hc.arguments.values())[0]
         FULL_OPTS = (opts, words_of(hc.description), words_of(arg.description))
@@ -187,50 +266,96 @@ def tokenise(text):
 NOOBS = {"kind": "", "cls": "", "lines": []}
 
 
-def render_page(app, cfg, p, width, ansi):
+def normalise(cfg):
+    """fields added to the configuration format later get their neutral values (stored replay cases stay usable)"""
+    cfg.setdefault("gargs", [])
+    cfg.setdefault("nl", 0)
+    cfg.setdefault("gw", len(cfg.get("sep") or "\n"))
+    cfg.setdefault("tnl", False)
+    for o in cfg["gopts"]:
+        o.setdefault("vn", "...")
+    for c in cfg["cmds"]:
+        for x in [c] + c["subs"]:
+            for o in x["opts"]:
+                o.setdefault("vn", "...")
+    return cfg
+
+
+def exc_obs(e, where=""):
+    return {"kind": "exc", "cls": where + type(e).__name__, "lines": []}
+
+
+def help_object(app, cfg, p):
+    from clikit.ui.help import ApplicationHelp, CommandHelp
+
+    if not p:
+        return ApplicationHelp(app)
+    cmd = app.get_command(cfg["cmds"][p[0] - 1]["name"])
+    if len(p) == 2:
+        cmd = cmd.get_sub_command(cfg["cmds"][p[0] - 1]["subs"][p[1] - 1]["name"])
+    return CommandHelp(cmd)
+
+
+def new_io(width, ansi):
     from clikit.formatter import AnsiFormatter
     from clikit.io import BufferedIO
-    from clikit.ui.help import ApplicationHelp, CommandHelp
     from clikit.ui.rectangle import Rectangle
 
     io = BufferedIO(formatter=AnsiFormatter(forced=True) if ansi else None)
     io.set_terminal_dimensions(Rectangle(width, 50))
+    return io
+
+
+def render_on(page, io):
+    """one render of a help object on an I/O (which may have been used before: its output is taken away first)"""
     try:
-        if not p:
-            page = ApplicationHelp(app)
-        else:
-            cmd = app.get_command(cfg["cmds"][p[0] - 1]["name"])
-            if len(p) == 2:
-                cmd = cmd.get_sub_command(cfg["cmds"][p[0] - 1]["subs"][p[1] - 1]["name"])
-            page = CommandHelp(cmd)
+        io.clear_output()
         page.render(io)
         return {"kind": "ok", "cls": "", "lines": tokenise(io.fetch_output())}
-    except Exception as e:  # noqa: every exception kind is an observation
-        return {"kind": "exc", "cls": type(e).__name__, "lines": []}
+    except KeyboardInterrupt:
+        raise
+    except BaseException as e:  # noqa: every exception kind is an observation
+        return exc_obs(e)
 
 
-def run_request(cfg, tokens, width, ansi):
-    """one run of a freshly built application (no state of an earlier run can leak in)"""
-    from clikit.args import ArgvArgs
-    from clikit.io.input_stream import StringInputStream
-    from clikit.io.output_stream import BufferedOutputStream
-
-    class AnsiStream(BufferedOutputStream):
-        def supports_ansi(self):
-            return True
-
-    app = make_app(cfg)
-    out, err = (AnsiStream if ansi else BufferedOutputStream)(), BufferedOutputStream()
-    saved = {k: os.environ.get(k) for k in ("COLUMNS", "LINES")}
-    os.environ["COLUMNS"] = str(width)
-    os.environ["LINES"] = "50"
+def render_page(app, cfg, p, width, ansi):
     try:
-        st = app.run(ArgvArgs(["prog"] + [real(t) for t in tokens]), StringInputStream(""), out, err)
+        return render_on(help_object(app, cfg, p), new_io(width, ansi))
+    except Exception as e:  # noqa
+        return exc_obs(e)
+
+
+def other_width(width):
+    return width + 13 if width < 120 else width - 37
+
+
+def run_request(cfg, tokens, width, ansi, form="argv"):
+    """one run of a freshly built application (no state of an earlier run can leak in); the command line is given as
+    an argument vector or as one string"""
+    saved = {k: os.environ.get(k) for k in ("COLUMNS", "LINES")}
+    try:
+        from clikit.args import ArgvArgs, StringArgs
+        from clikit.io.input_stream import StringInputStream
+        from clikit.io.output_stream import BufferedOutputStream
+
+        class AnsiStream(BufferedOutputStream):
+            def supports_ansi(self):
+                return True
+
+        app = make_app(cfg)
+        out, err = (AnsiStream if ansi else BufferedOutputStream)(), BufferedOutputStream()
+        os.environ["COLUMNS"] = str(width)
+        os.environ["LINES"] = "50"
+        toks = [real(t) for t in tokens]
+        raw = StringArgs(" ".join(toks)) if form == "string" else ArgvArgs(["prog"] + toks)
+        st = app.run(raw, StringInputStream(""), out, err)
         if st == 0:
             return {"kind": "ok", "cls": "", "lines": tokenise(out.fetch())}
         return {"kind": "status", "cls": "status" + str(st), "lines": []}
-    except Exception as e:  # noqa
-        return {"kind": "exc", "cls": type(e).__name__, "lines": []}
+    except (KeyboardInterrupt, T.MachineryError):
+        raise
+    except BaseException as e:  # noqa: also SystemExit is an observation
+        return exc_obs(e)
     finally:
         for k, v in saved.items():
             if v is None:
@@ -270,16 +395,39 @@ def event(op, **kw):
 
 
 def record(case):
-    """case = {cfg, T, ansi, pages: [path], reqs: [[i, j, alias index, flag]], runA, noA: [paths without A-layer]}
-    -> the trace for HelpPageTrace"""
-    cfg, width, ansi = case["cfg"], case["T"], case.get("ansi", False)
+    """case = {cfg, T, ansi, pages: [path], reqs: [[i, j, alias index, flag, form, extra]], runA, noA: [paths without
+    A-layer], again: render every help object a second time} -> the trace for HelpPageTrace.
+    The first renderings of a trace share ONE I/O object; with `again` every help object is rendered once more on a fresh
+    I/O of another width and the other formatter (plain <-> ANSI)."""
+    cfg, width, ansi = normalise(case["cfg"]), case["T"], case.get("ansi", False)
     trace = [event("config", cfg=cfg, T=width)]
-    app = make_app(cfg)
     noa = [list(p) for p in case.get("noA", [])]
+    run_a = bool(case.get("runA", True))
+    try:
+        app, failed = make_app(cfg), None
+    except T.MachineryError:
+        raise
+    except Exception as e:  # noqa: a library that rejects the configuration is an observation too
+        app, failed = None, exc_obs(e, "build:")
+    shared = new_io(width, ansi) if failed is None else None
     for p in case["pages"]:
-        trace.append(event("page", p=list(p), obs=render_page(app, cfg, p, width, ansi),
-                           runA=bool(case.get("runA", True)) and list(p) not in noa))
-    for i, j, al, flag in case["reqs"]:
+        a_here = run_a and list(p) not in noa
+        if failed is not None:
+            trace.append(event("page", p=list(p), obs=failed, runA=a_here))
+            continue
+        try:
+            page = help_object(app, cfg, p)
+        except Exception as e:  # noqa
+            trace.append(event("page", p=list(p), obs=exc_obs(e), runA=a_here))
+            continue
+        trace.append(event("page", p=list(p), obs=render_on(page, shared), runA=a_here))
+        if case.get("again"):
+            w2 = other_width(width)
+            trace.append(event("page", p=list(p), obs=render_on(page, new_io(w2, not ansi)), runA=a_here, T=w2))
+    for r in case["reqs"]:
+        i, j, al, flag = r[:4]
+        form = r[4] if len(r) > 4 else "argv"
+        extra = [r[5]] if len(r) > 5 and r[5] else []
         names = []
         if i:
             c = cfg["cmds"][i - 1]
@@ -289,9 +437,9 @@ def record(case):
                 s = c["subs"][j - 1]
                 ns = [s["name"]] + s["aliases"]
                 names.append(ns[(al // 7) % len(ns)])
-        a = run_request(cfg, ["help"] + names, width, ansi)
-        b = run_request(cfg, names + [flag], width, ansi)
-        trace.append(event("request", i=i, j=j, a=a, b=b, runA=bool(case.get("runA", True)) and not noa))
+        a = run_request(cfg, ["help"] + names + extra, width, ansi, form)
+        b = run_request(cfg, names + [flag] + extra, width, ansi, form)
+        trace.append(event("request", i=i, j=j, a=a, b=b, runA=run_a and not noa))
     return trace
 
 
@@ -339,13 +487,15 @@ VOCAB = ["the", "of", "and", "to", "a", "in", "is", "for", "file", "files", "pat
          "https://example.org/docs/gettingstarted/installguide.html", "/srv/data-2026/build-42/artifacts_0001/output-7.tar.gz",
          "https://example.org/a/very/long/path/segment/that/keeps/going/and/going/index.html?x=1&y=2"]
 CMD_NAMES = ["add", "remove", "list", "show", "config", "init", "update", "self", "cache", "clear", "run", "build", "env",
-             "check", "lock", "export", "b2", "server", "start", "stop", "dry-run", "make-all"]
+             "check", "lock", "export", "b2", "server", "start", "stop", "dry-run", "make-all", "q",
+             "averyveryverylongcommandnamewithoutanybreaksinit"]
 ARG_NAMES = ["name", "path", "file", "target", "source", "dest", "key", "value", "package", "version", "id", "n", "args",
-             "input-file", "pattern-b"]
+             "input-file", "pattern-b", "thisargumentnameisratherlongforanargument"]
 OPT_NAMES = ["force", "dry-run", "output", "format", "verbose-level", "all", "tree", "no-dev", "with", "without", "only",
-             "extras", "python", "lock", "remove-untracked", "quiet-mode", "jobs", "xy", "yes", "no-cache"]
+             "extras", "python", "lock", "remove-untracked", "quiet-mode", "jobs", "xy", "yes", "no-cache",
+             "anoptionwhoselongnameislongerthanmostlabels"]
 ALIASES = ["ad", "rm", "ls", "sh", "cfg", "i", "up", "s2", "cc", "r", "bld", "e", "chk", "lk", "ex", "mk"]
-DEFAULTS = [["\"text\""], ["7"], ["1.5"], ["true"], ["false"], ["\"two", "words\""], ["\"" + "z" * 45 + "\""], ["0"], ["-3"]]
+DEFAULTS = [["\"text\""], ["7"], ["1.5"], ["true"], ["false"], ["\"two", "words\""], ["\"" + "z" * 45 + "\""], ["0"], ["-3"], ['""']]
 LIST_DEFAULTS = [["[\"a\",", "\"b\"]"], ["[1,", "2,", "3]"], ["[\"only\"]"]]
 
 
@@ -397,11 +547,14 @@ def _opts(rng, longs, shorts, n):
         val = rng.choice(["no", "no", "req", "opt"])
         multi = val == "req" and rng.random() < 0.3
         has, desc = _desc(rng)
+        if not has and rng.random() < 0.4:
+            has = True  # the description is the empty string, not None
         dflt = []
         if val != "no" and rng.random() < 0.5:
             dflt = rng.choice(LIST_DEFAULTS if multi else DEFAULTS)
         out.append({"long": long_, "short": short, "ps": bool(short) and rng.random() < 0.75, "val": val, "multi": multi,
-                    "hasDesc": has, "desc": desc, "dflt": list(dflt)})
+                    "hasDesc": has, "desc": desc, "dflt": list(dflt),
+                    "vn": rng.choice(["...", "...", "file", "n", "level"]) if val != "no" else "..."})
     return out
 
 
@@ -418,7 +571,7 @@ def random_cfg(rng, tags=False):
         gopts = [dict(o) for o in gopts]
     else:
         gopts = [{"long": "help", "short": "h", "ps": True, "val": "no", "multi": False, "hasDesc": True,
-                  "desc": ["Display", "this", "help", "message"], "dflt": []}]
+                  "desc": ["Display", "this", "help", "message"], "dflt": [], "vn": "..."}]
         hdesc, adesc = ["Display", "the", "manual", "of", "a", "command"], ["The", "command", "name"]
     longs = {o["long"] for o in gopts}
     shorts = {o["short"] for o in gopts if o["short"]} | {"h", "q", "v", "V", "n"}
@@ -460,11 +613,20 @@ def random_cfg(rng, tags=False):
             n["help"] = [par for par in n["help"] if par]
         return n, has_subs
 
-    for _ in range(rng.randint(1, 4)):
+    gargs, gstate, gtaken = [], (False, False), set()
+    if rng.random() < 0.12:  # a global argument, inherited by every command (never multi-valued: `help` adds its own)
+        has, desc = _desc(rng)
+        req = rng.random() < 0.5
+        gargs = [{"name": "workspace", "req": req, "multi": False, "hasDesc": has, "desc": desc, "dflt": []}]
+        gstate, gtaken = (not req, False), {"workspace"}
+    many = rng.random() < 0.06  # very many commands
+    for _ in range(rng.randint(14, 20) if many else rng.randint(1, 4)):
         sub_names = set()
         c, has_subs = node(False, None)
-        taken = set()
-        c["args"], st = _args(rng, taken, (False, False), rng.choice([0, 1, 1, 2, 3]) if not has_subs else rng.choice([0, 0, 1]), tags)
+        if many:
+            has_subs, c["help"] = False, []
+        taken = set(gtaken)
+        c["args"], st = _args(rng, taken, gstate, rng.choice([0, 1, 1, 2, 3]) if not has_subs else rng.choice([0, 0, 1]), tags)
         cl, cs = set(longs), set(shorts)
         c["opts"] = _opts(rng, cl, cs, rng.choice([0, 1, 2, 3]))
         if has_subs:
@@ -477,9 +639,14 @@ def random_cfg(rng, tags=False):
         cmds.append(c)
     _rank(cmds)
     app = rng.choice(["app", "tool", "my-cli", "x"])
+    # how descriptions are joined: LF / CR / VT / FF are one blank for textwrap, CR LF two; the full default configuration
+    # brings its own (blank-separated) texts, so only one-character separators inside a text are used there
+    sep = rng.choice(["\n", "\r", "\x0b", "\x0c"] if full or rng.random() < 0.6 else ["\r\n", "\n\r", "\x0c\n"])
     return {"app": app, "display": rng.choice([["App"], ["My", "Tool"], []]), "ver": rng.choice(["1.0", "2.3.1-beta", ""]),
             "help": [[rng.choice(VOCAB) for _ in range(rng.choice([4, 20]))] for _ in range(rng.choice([0, 0, 2]))],
-            "gopts": gopts, "cmds": cmds, "base": "full" if full else "slim", "nl": rng.choice([0, 0, 3, 7])}
+            "gargs": gargs, "gopts": gopts, "cmds": cmds, "base": "full" if full else "slim",
+            "nl": rng.choice([0, 0, 1, 3, 7]), "sep": sep, "gw": len(sep), "tnl": (not full) and rng.random() < 0.4,
+            "route": rng.randint(0, 31)}
 
 
 def longest_label(cfg):
@@ -501,6 +668,8 @@ def hyphenated(cfg):
 
     w = textwrap.TextWrapper()
     words = [cfg["app"], "<c1>" + cfg["ver"] + "</c1>"] + cfg["display"] + [y for par in cfg["help"] for y in par]
+    for a in cfg.get("gargs", []):
+        words += ["[<" + a["name"] + ">]"] + a["desc"]
     for o in cfg["gopts"]:
         words += ["[--" + o["long"] + "]", "[--" + o["long"] + "\u00a0[<...>]]"] + o["desc"] + o["dflt"]
     for c in cfg["cmds"]:
@@ -517,10 +686,13 @@ def random_case(rng, tags=False):
     cfg = random_cfg(rng, tags)
     r = rng.random()
     width = rng.randint(40, 200) if r < 0.6 else (rng.randint(40, 70) if r < 0.85 else longest_label(cfg) + 10 + rng.randint(0, 4))
-    reqs = [[i, j, rng.randint(0, 48), rng.choice(["--help", "-h"])] for i, j in requests(cfg, True)]
+    extras = ["", "", "--no-ansi", "--ansi", "-v", "-n"] if cfg["base"] == "full" else [""]
+    # (a global argument would swallow the path of `help <path>`: such applications get no requests)
+    reqs = [] if cfg["gargs"] else [[i, j, rng.randint(0, 48), rng.choice(["--help", "-h"]), rng.choice(["argv", "string"]),
+                                     rng.choice(extras)] for i, j in requests(cfg, True)]
     tagged = any(a["name"] in STYLE_TAGS for c in cfg["cmds"] for x in [c] + c["subs"] for a in x["args"])
     return {"cfg": cfg, "T": width, "ansi": rng.random() < 0.5, "pages": targets(cfg), "reqs": reqs,
-            "runA": not hyphenated(cfg) and not tagged}
+            "runA": not hyphenated(cfg) and not tagged, "again": True}
 
 
 # ------------------------------------------------------------------------------------------- fixed reproducers
@@ -566,8 +738,11 @@ def replay_behaviour(line):
     cfg, width = rec["cfg"], rec["T"]
     h = zlib.crc32(json.dumps([cfg, width], sort_keys=True).encode())
     case = {"cfg": cfg, "T": width, "ansi": h % 2 == 0, "pages": [pg["p"] for pg in rec["pages"]],
-            "reqs": [[q["i"], q["j"], (h // 2) % 49, "--help" if (h // 98) % 2 else "-h"] for q in rec["reqs"]], "runA": True}
-    cfg["nl"] = [0, 3][(h // 4) % 2]
+            "reqs": [[q["i"], q["j"], (h // 2) % 49, "--help" if (h // 98) % 2 else "-h", "string" if (h // 7 + n) % 2 else "argv", ""]
+                     for n, q in enumerate(rec["reqs"])], "runA": True}
+    # driver-only choices: which characters the separators are, and by which equivalent calls the configuration is written
+    cfg["sep"] = (["\n", "\r", "\x0b", "\x0c"] if cfg["gw"] == 1 else ["\r\n", "\n\r", "\x0c\n"])[(h // 4) % (4 if cfg["gw"] == 1 else 3)]
+    cfg["route"] = (h // 16) % 32
     trace = record(case)
     same = True
     nontrivial = 0
